@@ -20,7 +20,8 @@ from ..worlds import build_world
 ID = "C16"
 ENGINE = "eqlmc-E1"
 RULE = ("cases = (inner collections of the parents, selection, extra condition, caching, evaluation number), all "
-        "combinations; non-trivial = some but not all (parent, element) pairs are expected")
+        "combinations; non-trivial = some but not all (parent, element) pairs are expected"
+        ' Wave 7: falsy scalar inner values (0, None, False, 0.0).')
 ASSUMPTIONS = ["elements of collections are non-falsy integers (falsy elements: C19), scalar inner values include the "
                "falsy ones; strings are not used as collections"]
 
